@@ -10,6 +10,7 @@ from facts import Undecided, loc, tstr, callee_name, callee_written, subterms, o
 from guards import try_sites, ok_blocks, must_pass_through, strip_casts, facts_at, edge_facts
 from pat import m, Bind, ANY, Call, Bin, Const, Param, SelfField, core, self_path
 import serfmt
+import rltables
 
 META = {
     "level": "other",
@@ -20,7 +21,9 @@ META = {
                    "returned aggregate. The five basic impls (Serializable, Vec<V>, Vec<u8>, String, Option<V>) are checked against their byte "
                    "formulas (length terms on the write side equal those on the read side and in the size). size_by_params is compared with "
                    "the element count implied by the write sequence. This decides that the three hand-synchronised methods agree; it does "
-                   "not decide value equality for arbitrary content.",
+                   "not decide value equality for arbitrary content. R5: the three sample indexes of RLVector are not serialized; the component "
+                   "of the sample pair and the universe each is built from must be the same in From<RLBuilder>, in load and in the query that "
+                   "searches through it (table agreement across sites).",
     "trusted_base": ["write_all/read_exact transfer exactly the slice length or fail", "rustc's MIR faithfully represents the source"],
     "assumptions": ["representation invariants checked by the loaders (bits_to_words(len) == data.len(), len*width == data.len()) hold for values built through the API"],
 }
@@ -55,6 +58,8 @@ def check(ctx):
     configs = ["native"] if ctx.tier == "quick" else ["native", "portable", "native-rel", "portable-rel"]
     for cfg in configs:
         check_config(ctx, ctx.facts(cfg), "" if cfg == "native" else "@" + cfg)
+        # R5: fields that are not serialized are rebuilt by load exactly as the builder computes them
+        rltables.check_tables(ctx, ctx.facts(cfg), "" if cfg == "native" else "@" + cfg, "C06.R5.rl")
 
 
 def flatten(ctx, name, H, B, where, tag):
